@@ -1301,6 +1301,10 @@ func (gs *GossipSubRouter) pxConnect(peers []*pb.PeerInfo) {
 				gs.logger.Warn("bogus peer record obtained through px: peer ID doesn't match expected peer", "recordPeerID", rec.PeerID, "expectedPeer", p)
 				continue
 			}
+			if !p.MatchesPublicKey(envelope.PublicKey) {
+				gs.logger.Warn("bogus peer record obtained through px: not signed with the key of the peer", "expectedPeer", p)
+				continue
+			}
 			spr = envelope
 		}
 
